@@ -456,7 +456,7 @@ def nat_whole_resource_steps(h):
     import re
     from dataflows import Flow, update_resource, delete_resource, concatenate
     layouts = [['a', 'b', 'c'], ['y2019', 'notes', 'y2020'], ['res_1', 'res', 'res_12', 'z'], ['p', 'q', 'p2', 'r', 'p3']]
-    for names in layouts:
+    for names in layouts[h.shard[0]::h.shard[1]]:       # (one layout per shard: the runs of a shard are deterministic)
         data = [[dict(v=10 * k + j, t='%s%d' % (n, j)) for j in range(2 + k % 2)] for k, n in enumerate(names)]
         sels = [[names[0], names[2]], [names[2], names[0]], re.escape(names[0]) + '|' + re.escape(names[2]), names[0][0] + '.*',
                 [names[0], names[1]], [names[1]], 1, -1, None, [names[-1], names[0]], [], 'matches-nothing', ['not-there']]
@@ -503,6 +503,7 @@ def nat_whole_resource_steps(h):
 
 
 nat_pipeline.shards = 6
+nat_whole_resource_steps.shards = 4
 
 
 def _items():
